@@ -2618,13 +2618,11 @@ func (c *streamableClientConn) checkResponse(ctx context.Context, requestSummary
 			resp.Body.Close()
 		}
 	}()
-	// Transient server errors (502, 503, 504, 429) should not break the connection.
-	// Wrap them with ErrRejected so the jsonrpc2 layer doesn't set writeErr.
-	if isTransientHTTPStatus(resp.StatusCode) {
-		return fmt.Errorf("%w: %s: %v", jsonrpc2.ErrRejected, requestSummary, http.StatusText(resp.StatusCode))
-	}
 	// By default, always try to decode the body and surface the underlying
 	// JSON-RPC error, wrapping it with ErrRejected to prevent the connection from closing.
+	// This comes before the transient-status case: a server may report a JSON-RPC
+	// error (for example "method not found") on a 500, and callers such as the
+	// keep-alive loop must be able to recognize it with errors.Is.
 	// Setting MCPGODEBUG=noprotocolerrorbody=1 restores the previous behavior.
 	if noprotocolerrorbody != "1" && (resp.StatusCode < 200 || resp.StatusCode >= 300) {
 		body, _ := io.ReadAll(resp.Body)
@@ -2632,6 +2630,11 @@ func (c *streamableClientConn) checkResponse(ctx context.Context, requestSummary
 		if response, ok := msg.(*jsonrpc.Response); ok && response.Error != nil {
 			return fmt.Errorf("%s: %w: %w: %v", requestSummary, response.Error, jsonrpc2.ErrRejected, http.StatusText(resp.StatusCode))
 		}
+	}
+	// Transient server errors (500, 502, 503, 504, 429) should not break the connection.
+	// Wrap them with ErrRejected so the jsonrpc2 layer doesn't set writeErr.
+	if isTransientHTTPStatus(resp.StatusCode) {
+		return fmt.Errorf("%w: %s: %v", jsonrpc2.ErrRejected, requestSummary, http.StatusText(resp.StatusCode))
 	}
 	// §2.5.3: "The server MAY terminate the session at any time, after
 	// which it MUST respond to requests containing that session ID with HTTP
